@@ -5,6 +5,8 @@
 #include <cerrno>
 #include <cstring>
 #include <pthread.h>
+#include <sys/wait.h>
+#include <unistd.h>
 #include <string>
 #include <vector>
 
@@ -52,6 +54,48 @@ void *body(void *p) {
   return nullptr;
 }
 }  // namespace
+
+// Second part: the same calls without the baton.  Two threads ask for messages - known numbers and numbers libc does not
+// know - as fast as they can; each checks the text it gets for the known ones.  In the tsan lane any storage the calls share
+// shows up as a data race.  Runs in a forked process so that a sanitizer report ends that process, not the check.
+namespace {
+struct FreeArg { int id; uint64_t seed; int bad; };
+void *free_body(void *p) {
+  FreeArg *a = (FreeArg *) p;
+  static const int codes[] = { -EINVAL, -EPIPE, -99999, -ETIMEDOUT, -4095, -ENOMEM, -1000000, -EAGAIN, -ENOENT };
+  Rng r = Rng::stream(a->seed, a->id ? "free1" : "free0");
+  for (int i = 0; i < 300; i++) {
+    int code = codes[r.below(sizeof codes / sizeof codes[0])];
+    const char *s = shim_c.strerror_(code);
+    if (!s) { a->bad = 1; break; }
+    if (-code < 4000) {
+      char want[512];
+      want[0] = 0;
+      const char *w = strerror_r(-code, want, sizeof want);
+      if (w && strcmp(w, s) != 0) { a->bad = 1; break; }
+    }
+  }
+  return nullptr;
+}
+}  // namespace
+
+std::string tls_free_running(uint64_t seed) {
+  fflush(stdout);
+  pid_t pid = fork();
+  if (pid < 0) return "";
+  if (pid == 0) {
+    FreeArg a[2] = { { 0, seed, 0 }, { 1, seed, 0 } };
+    pthread_t t[2];
+    for (int i = 0; i < 2; i++) pthread_create(&t[i], nullptr, free_body, &a[i]);
+    for (int i = 0; i < 2; i++) pthread_join(t[i], nullptr);
+    _exit(a[0].bad || a[1].bad ? 3 : 0);
+  }
+  int status = 0;
+  waitpid(pid, &status, 0);
+  if (WIFEXITED(status) && WEXITSTATUS(status) == 0) return "";
+  if (WIFEXITED(status) && WEXITSTATUS(status) == 3) return "two threads calling reproc_strerror at the same time: one of them got another message than the one for its error number";
+  return "two threads calling reproc_strerror at the same time: the run ended with a sanitizer report or a crash (storage shared between the calls)";
+}
 
 // returns an empty string if the clause held for this seed
 std::string tls_check(uint64_t seed) {
